@@ -52,8 +52,65 @@ Definition out_agree (m i : out) : bool :=
   end.
 Definition obs_agree (m i : obs) : bool := out_agree (fst m) (fst i) && ofile_eqb (snd m) (snd i).
 
+(* ------------------------------------------------------------------ an equal, faster reader *)
+(* C01's take_rows measures the whole remaining file for every row (quadratic; fine for its
+   small tables, too slow for chunks of > 16384 rows).  The case files evaluate [run_x]: the
+   same machine with the length test made on the row just taken.  ExecProofs.run_x_eq proves
+   run_x = Model.run, so what is evaluated IS the model. *)
+Fixpoint take_rows_x (rowsize n : nat) (f : list byte) : result (list (list byte)) :=
+  match n with
+  | O => Ok []
+  | S k =>
+      let r := firstn rowsize f in
+      if (length r <? rowsize)%nat then Err ERuntime
+      else do t <- take_rows_x rowsize k (skipn rowsize f); Ok (r :: t)
+  end.
+
+Definition recfile_read_x (f : file) (offset rowsize : Z) (nrows : option Z) : result (list (list byte)) :=
+  let n := match nrows with
+           | Some n => if n <? 0 then count_nrows (Z.of_nat (length f)) offset rowsize else n
+           | None => count_nrows (Z.of_nat (length f)) offset rowsize
+           end in
+  if n <? 1 then Err ERuntime
+  else take_rows_x (Z.to_nat rowsize) (Z.to_nat n) (skipn (Z.to_nat offset) f).
+
+Section MachineX.
+  Variable meta : list byte -> option (delim * dtype * list byte).
+  Variable enc : list byte -> chunk -> list byte.
+
+  Definition read_back_x (s : state) : out :=
+    match disk s with
+    | None => OErr EOther
+    | Some f =>
+        match read_meta meta f with
+        | Err e => OErr e
+        | Ok (size, off, dl, dt, u) =>
+            match dl with
+            | None =>
+                match recfile_read_x f (Z.of_nat off) (rowsize dt) (Some size) with
+                | Ok rows => ORead size dt (Some rows) u
+                | Err e => OErr e
+                end
+            | Some _ => ORead size dt None u
+            end
+        end
+    end.
+
+  Definition step_x (s : state) (o : op) : state * out :=
+    match o with
+    | Read => (s, read_back_x s)
+    | _ => step meta enc s o
+    end.
+
+  Fixpoint run_x (s : state) (ops : list op) : list (out * option file) :=
+    match ops with
+    | [] => []
+    | o :: rest => let '(s', r) := step_x s o in (r, disk s') :: run_x s' rest
+    end.
+End MachineX.
+
 Definition v_history (mt : meta_table) (ops : list op) (os : list obs) : Z :=
-  verdict (list_eqb obs_agree (run (meta_of mt) enc_of init ops) os)
+  verdict (list_eqb obs_agree (run_x (meta_of mt) enc_of init ops) os)
           (hist_check AMissing None ops os).
 
 (* the contract monitor, clause (a): framing-safe header text (evaluated with the verified
@@ -66,4 +123,4 @@ Definition v_tie_size (n : Z) (txt : list byte) : Z :=
   if bytes_eqb (size_line n ++ [nl]) txt then 0 else 1.
 
 (* for replays: what the model answers *)
-Definition show_history (mt : meta_table) (ops : list op) := run (meta_of mt) enc_of init ops.
+Definition show_history (mt : meta_table) (ops : list op) := run_x (meta_of mt) enc_of init ops.
